@@ -553,3 +553,69 @@ class Sim:
         d = t_ms - self.clock.ms()
         if d > 0:
             await asyncio.sleep(d / 1000.0)
+
+
+# ---------------------------------------------------------------------------------------
+# real-time rig for the threaded (sync) API: Zeroconf() with its own loop thread, ServiceBrowser threads
+
+
+class RealClock:
+    @property
+    def t(self) -> float:
+        import time
+        return time.monotonic()
+
+    def ms(self) -> float:
+        import time
+        return time.monotonic() * 1000.0
+
+
+class RealTimeRig:
+    """with RealTimeRig() as rig:  zc = Zeroconf()  -> the instance runs its real loop thread on fake sockets of rig.host.
+    Time is wall-clock; use only for a handful of functional runs (verdicts from timeouts here are INCONCLUSIVE)."""
+
+    def __init__(self, ip4: str = "10.0.0.1") -> None:
+        self.clock = RealClock()
+        self.net = Net(self.clock)  # type: ignore[arg-type]
+        self.host = self.net.add_host("H", ip4)
+        self._saved: Any = None
+        self._old_policy: Any = None
+
+    def __enter__(self) -> "RealTimeRig":
+        import zeroconf._core as core
+        rig = self
+
+        class RLoop(asyncio.SelectorEventLoop):
+            async def create_datagram_endpoint(self, protocol_factory, local_addr=None, remote_addr=None, *, sock=None, **kw):
+                protocol = protocol_factory()
+                transport = FakeTransport(self, sock, protocol, rig.net)  # type: ignore[arg-type]
+                sock.transport = transport
+                sock.protocol = protocol
+                protocol.connection_made(transport)
+                return transport, protocol
+
+        class Policy(asyncio.DefaultEventLoopPolicy):
+            def new_event_loop(self):
+                loop = RLoop()
+                loop.vclock = rig.clock  # type: ignore[attr-defined]
+                rig.net.loop = loop      # type: ignore[assignment]
+
+                def handler(l: Any, ctx: Dict[str, Any]) -> None:
+                    exc = ctx.get("exception")
+                    rig.net.escapes.append({"message": ctx.get("message"), "exc": repr(exc), "exc_type": type(exc).__name__ if exc is not None else None})
+                loop.set_exception_handler(handler)
+                return loop
+
+        self._saved = core.create_sockets
+        core.create_sockets = lambda *a, **k: rig.host.make_sockets()
+        self._old_policy = asyncio.get_event_loop_policy()
+        asyncio.set_event_loop_policy(Policy())
+        return self
+
+    def inject(self, zc: Any, data: bytes, src: Tuple[str, int] = ("10.0.0.9", 5353)) -> None:
+        zc.loop.call_soon_threadsafe(self.net.inject_now, self.host, data, src)
+
+    def __exit__(self, *exc: Any) -> None:
+        import zeroconf._core as core
+        core.create_sockets = self._saved
+        asyncio.set_event_loop_policy(self._old_policy)
